@@ -97,7 +97,10 @@ class FixedHandle(desper.Handle):
 
 
 def run_case(case):
-    starts = case
+    if case and isinstance(case[0], (int, float)):
+        base, starts = case         # (clock base, starts)
+    else:
+        base, starts = 10.0, case   # older replay files
     envx = Env()
     envx.log = []
     envx.quits = []
@@ -105,7 +108,7 @@ def run_case(case):
     envx.boom = None
     envx.done = False
     envx.frame = None
-    envx.now = 10.0
+    envx.now = float(base)
     envx.script = []
     worlds = {}
     envx.handles = {}
@@ -169,6 +172,8 @@ def run_case(case):
             want_quits = []
             for fi, (inc, pos, action) in enumerate(frames):
                 dt = 0 if fi == 0 else inc
+                if fi + 1 < len(frames) and envx.readings[fi] == 0:
+                    hits['reading_exactly_zero'] = 1
                 if inc == 0 and fi > 0:
                     hits['zero_increment'] = 1
                 last = 2 if action == 'nothing' else pos
@@ -262,32 +267,40 @@ def compositions(total, max_parts):
     return out
 
 
+BASES = (10.0, 0.0, -1.0)       # readings that hit or cross zero matter
+
+
 def cases(tier):
     total, max_starts = (3, 2) if tier == 'quick' else (4, 3)
     out = []
     for comp in compositions(total, max_starts):
         families = [list(starts_with(k)) for k in comp]
         for combo in itertools.product(*families):
-            out.append(tuple(combo))
+            for base in BASES:
+                if base != 10.0 and sum(comp) > 3:
+                    continue    # zero-crossing clocks: <= 3 frames in total
+                out.append((base, tuple(combo)))
     return out
 
 
 def run(tier, rep):
     rep.rule = RULE
     rep.assumptions += [
-        'clock readings are dyadic rationals starting at 10.0 (exact floats)',
+        'clock readings are dyadic rationals (exact floats) starting at 10.0, '
+        '0.0 or -1.0, so that a reading can be exactly zero or negative',
         'loop.running after a non-Quit exception is not constrained by the '
         'statement and not checked',
         'which listeners of a frame that quit have still run is judged only '
         'through the processor ledger',
     ]
     rep.require_hits(switch=1, restart=1, restart_after_exception=1,
-                     zero_increment=1)
+                     zero_increment=1, reading_exactly_zero=1)
     total, max_starts = (3, 2) if tier == 'quick' else (4, 3)
     kernel.enumerate_cases(run_case, cases(tier), rep, 'frame-scripts',
                            chunk=2000,
                            params=dict(max_total_frames=total,
                                        max_starts=max_starts, increments=INCS,
+                                       clock_bases=BASES,
                                        actions=CONT + TERM, positions=3))
 
 
